@@ -406,5 +406,42 @@ def r13_7(ctx):
     return r
 
 
+def r13_8(ctx):
+    """receive-window accounting: a chunk buffered out of order is charged to used_rwnd when stored in
+    received_queue; whoever takes chunks out again (in-order drain, FORWARD-TSN purge) must give the credit back,
+    else the advertised window only ever shrinks and the peer's sender is throttled to a standstill."""
+    r = RuleResult("R13.8", "K4", "every removal from the reorder buffer returns its receive-window credit")
+    n = 0
+    for b in ctx.facts.bodies(prefix="transports::sctp::"):
+        if "::tests::" in b.name or b.is_closure and not b.coroutine:
+            continue
+        rem = [(bi, p.split("::")[-1]) for bi, t, p in b.calls()
+               if p and p.endswith(("BTreeMap::<K, V, A>::remove", "BTreeMap::<K, V, A>::retain", "BTreeMap::<K, V, A>::clear", "BTreeMap::<K, V, A>::pop_first"))
+               and t["a"] and mir.has_field(b.term_operand(t["a"][0]), "received_queue")]
+        ins = [bi for bi, t, p in b.calls() if p and p.endswith("BTreeMap::<K, V, A>::insert") and t["a"] and mir.has_field(b.term_operand(t["a"][0]), "received_queue")]
+        if not rem and not ins:
+            continue
+        r.scope.append(b.name)
+        dec = [x[0] for x in core.atomic_sites(b, "used_rwnd", "fetch_sub")] + [x[0] for x in core.atomic_sites(b, "used_rwnd", "fetch_update")]
+        inc = [x[0] for x in core.atomic_sites(b, "used_rwnd", "fetch_add")]
+        for bi, m in rem:
+            n += 1
+            reach = core.reach_from(b, bi)
+            if any(d in reach or d == bi for d in dec):
+                r.ok({"site": b.where(bi), "op": m, "credit": "used_rwnd decremented afterwards"})
+            else:
+                r.violate(b.name, "rwnd:no-credit", b.where(bi),
+                          "chunks leave the reorder buffer (%s) but used_rwnd is never decremented in this function: the advertised "
+                          "receive window leaks" % m)
+        for bi in ins:
+            n += 1
+            if inc and core.must_pass(b, bi, inc):
+                r.ok({"site": b.where(bi), "op": "insert", "charge": "used_rwnd.fetch_add before the insert"})
+            else:
+                r.violate(b.name, "rwnd:no-charge", b.where(bi), "a chunk is buffered without being charged to used_rwnd")
+    r.need("reorder buffer insert/removal sites", n, 4)
+    return r
+
+
 def run(ctx):
-    return [r13_1(ctx), r13_2(ctx), r13_3(ctx), r13_4(ctx), r13_5(ctx), r13_6(ctx), r13_7(ctx)]
+    return [r13_1(ctx), r13_2(ctx), r13_3(ctx), r13_4(ctx), r13_5(ctx), r13_6(ctx), r13_7(ctx), r13_8(ctx)]
